@@ -11,6 +11,8 @@ uint16_t verif_u16(const char* name);
 uint32_t verif_u32(const char* name);
 uint64_t verif_u64(const char* name);
 void verif_bytes(void* p, size_t n, const char* name);
+uint32_t verif_range_u32(uint32_t lo, uint32_t hi, const char* name);   // symbolic value with a declared range
+uint64_t verif_range_u64(uint64_t lo, uint64_t hi, const char* name);
 void verif_assume(int c);
 void verif_assert(int c, const char* msg);
 void verif_reach(const char* name);
